@@ -26,7 +26,7 @@ type params struct {
 
 func scenario(p params, r *lib.RNG) *ts.Scenario {
 	sc := &ts.Scenario{Name: p.name, Seed: p.seed, Head: p.head, Real: p.real,
-		Gen:  ts.GenOpts{MaxTxs: 3, MaxLogs: 4, Traces: p.shape == "trace", Decoys: true, EmptyProb: 20},
+		Gen:  ts.GenOpts{MaxTxs: 3, MaxLogs: 4, Traces: p.shape == "trace", AlwaysTrace: p.real && p.shape == "trace", Decoys: true, EmptyProb: 20},
 		Srcs: []ts.SrcSpec{{Name: "main", ChainID: 1, Batch: p.batch, Conc: p.conc, URL: "http://main.invalid"}},
 		IGs: []ts.IGSpec{{Name: "ig1", Shape: p.shape, Table: "t1", AddrFlt: p.addrFlt,
 			Sources: []ts.SrcRef{{Name: "main", Start: p.start, Stop: p.stop}}}}}
@@ -102,6 +102,28 @@ func run(cfg lib.Cfg) error {
 		sc.Acts = append([]ts.Act{{Do: "xlag", K: 2, Len: lag}}, sc.Acts...)
 		judge(sc, "corpus-lagging-backend")
 	}
+	// corpus: trace indexing through the real client.  The block segment a load fetched stays
+	// in the client's cache (maxreads = number of integrations): a step retried after a
+	// transient database failure, or a second integration on the same source, reads the SAME
+	// cached blocks again and trace_block is attached to them a second time.
+	for v := 0; v < 4; v++ {
+		second := []string{"tx", "trace", "tx", "trace"}[v]
+		sc := &ts.Scenario{Name: fmt.Sprintf("corpus-trace-cached-segment-%d", v), Seed: uint64(13 + v), Head: 6, Real: true,
+			Gen:  ts.GenOpts{MaxTxs: 2, MaxLogs: 2, Traces: true, AlwaysTrace: true, Decoys: true},
+			Srcs: []ts.SrcSpec{{Name: "main", ChainID: 1, Batch: 3, Conc: 1, URL: "http://main.invalid"}},
+			IGs: []ts.IGSpec{
+				{Name: "ig1", Shape: "trace", Table: "t1", Sources: []ts.SrcRef{{Name: "main", Start: 1}}},
+				{Name: "ig2", Shape: second, Table: "t2", Sources: []ts.SrcRef{{Name: "main", Start: 1}}},
+			}}
+		if v < 2 {
+			// the load succeeds, then COPY / the cursor insert / the commit fails; the retry reads the cached segment
+			sc.Acts = append(sc.Acts, ts.Act{Do: "fault", Tid: 1, At: []int{4, 6}[v], Kind: "error"}, ts.Act{Do: "step", Tid: 1}, ts.Act{Do: "step", Tid: 1})
+		}
+		for k := 0; k < 5; k++ {
+			sc.Acts = append(sc.Acts, ts.Act{Do: "step", Tid: 1}, ts.Act{Do: "step", Tid: 2})
+		}
+		judge(sc, "corpus-trace-cached-segment")
+	}
 	shapes := []string{"log", "lognh", "tx", "trace"}
 	// every batch x conc pair on one fixed chain (thorough: all 96; quick: a seeded third)
 	for b := 1; b <= 12; b++ {
@@ -152,7 +174,7 @@ func run(cfg lib.Cfg) error {
 	}
 	for i := 0; i < nr; i++ {
 		head := r.Range(2, 14)
-		p := params{name: fmt.Sprintf("real-%d", i), shape: lib.Pick(r, []string{"log", "lognh", "tx"}), addrFlt: r.Intn(3) == 0,
+		p := params{name: fmt.Sprintf("real-%d", i), shape: lib.Pick(r, []string{"log", "lognh", "tx", "trace"}), addrFlt: r.Intn(3) == 0,
 			batch: r.Range(1, 8), conc: r.Range(1, 4), head: head, seed: r.U64() % 1_000_000, faults: r.Intn(3),
 			growEvery: r.Intn(3), growBy: r.Range(1, 4), real: true}
 		p.start = uint64(lib.Pick(r, []int{0, 1, head/2 + 1, head}))
